@@ -133,6 +133,47 @@ def correspond(ctx):
     for b in bad:
         ctx.mismatch("translator validation (ast expression vs live gate object)", b, "live", "extracted")
     ctx.count("gates_translated", len(items))
+    for name in TWO:
+        for (a, b) in ((0, 1), (1, 0), (0, 2), (2, 0), (0, 4), (5, 1), (3, 0)):
+            angles = [float(x) for x in ctx.rng.uniform(-3, 3, size=NPAR.get(name, 0))]
+            try:
+                why = mpo_structure(name, angles, a, b)
+            except Exception as e:  # noqa: BLE001
+                why = f"raised {type(e).__name__}: {e}"
+            ctx.case(nontrivial_key=("mpo-structure", name, a, b) if abs(a - b) > 1 else None, validated=True)
+            ctx.count("gate_mpo_structures")
+            if why:
+                ctx.mismatch("gate MPO vs the padded chain of LinAlg/TT (T1, identity pass-through, T2; flipped when the sites are reversed)",
+                             {"gate": name, "sites": [a, b]}, why, "padded chain", key="mpo-structure")
+
+
+def mpo_structure(name, angles, a, b):
+    """Shape of the gate MPO assumed by the theorem C18_padded_gate_mpo (+ flip for the reversed orientation): after undoing the flip
+    the chain is [T1, identity pass-through tensors (bond chi), ..., T2] with one tensor per site from min(a,b) to max(a,b), and
+    sum_m T1[.,.,0,m] T2[.,.,m,0] is the gate tensor."""
+    g = live_gate(name, angles)
+    g.set_sites(a, b)
+    ts = [np.asarray(t) for t in g.mpo_tensors]
+    if len(ts) != abs(a - b) + 1:
+        return f"{len(ts)} tensors for sites ({a},{b})"
+    if b < a:  # undo MPS-style flip: reverse the chain and exchange the bond legs
+        ts = [np.transpose(t, (0, 1, 3, 2)) for t in reversed(ts)]
+    t1, t2 = ts[0], ts[-1]
+    chi = t1.shape[3]
+    if t1.shape[2] != 1 or t2.shape[3] != 1 or t2.shape[2] != chi:
+        return f"end tensors have bond shapes {t1.shape[2:]}, {t2.shape[2:]}"
+    for k, t in enumerate(ts[1:-1]):
+        want = np.zeros((2, 2, chi, chi), dtype=complex)
+        for i in range(chi):
+            want[:, :, i, i] = np.eye(2)
+        if t.shape != want.shape or not np.array_equal(t, want):
+            return f"inner tensor {k + 1} is not the identity passing the bond through"
+    two = np.einsum("abim,cdmj->acbd", t1, t2).reshape(4, 4)  # (out1,out2),(in1,in2) in chain order
+    ref = qiskit_matrix(name, angles)
+    # after undoing the flip the chain runs in the order the sites were LISTED (first listed site first): T1.T2 is the gate as written
+    if not np.allclose(two, ref, atol=1e-10):
+        return "T1.T2 is not the gate tensor"
+    return None
 
 
 def search(ctx):
